@@ -2,8 +2,15 @@
    [enc_obj] mirrors Message.dump/__bytes__ (Model/Encode.v), [len_obj] mirrors
    Message.__len__ and its helpers as SEPARATE definitions (Model/Len.v), [dump] is
    dump(stream, delimit).  None of the statements has a hypothesis on the schema or on
-   the object state: unknown fields, empty-but-present optional / oneof / nested members,
-   out-of-range and ill-typed values are all covered. *)
+   the object state: unknown fields, empty-but-present optional / oneof / nested members
+   and out-of-range values are all covered.
+   ILL-TYPED values (a float in an int field, a str / list in a bytes field) are covered by the
+   statements only as far as the MODEL goes: the model raises EType on both walks, the code does
+   not always (M(a=-0.5) with an int32 field: len(m) = 11 while bytes(m) raises TypeError;
+   M(b="abc") with a bytes field: len(m) = 5 while bytes(m) raises) - found by the source
+   translation of the helpers (Model/C09SrcLib.v).  Such values are outside the property's
+   quantifier ("values as in C01": of the declared type) and outside what the tie generates, so
+   for the code the theorems speak about well-typed (in- or out-of-range) values. *)
 From BP Require Import Base.Prelude Model.Types Model.Varint Model.Object Model.Encode Model.Len.
 From BP Require Import Proofs.LenP Proofs.LenP2 Model.Decode Model.History Model.C07Ops.
 
